@@ -83,6 +83,18 @@ pub fn subjects() -> Vec<Subject> {
         repo.prune(&o, plan).expect("prune");
         out.push(Subject { name: "partly-used-packs", store: env.store(), model });
     }
+    // (2c) two snapshots carrying exactly the same time (e.g. two hosts at the same instant)
+    {
+        let env = Env::single();
+        _ = env.init_with(cfg(2, 600, 500)).expect("init");
+        let mut model = BTreeMap::new();
+        for (v, label) in [(0usize, "t0"), (2, "t2")] {
+            let repo = env.open_ids().expect("open");
+            _ = backup_with(&repo, &MemSource::new("r", source(v)), label, T0 + 1000, &bopts()).expect("backup");
+            _ = model.insert(label.to_string(), model_tree("r", &source(v)));
+        }
+        out.push(Subject { name: "equal-snapshot-times", store: env.store(), model });
+    }
     // (3) duplicate blobs: the same source backed up again through a stale handle
     {
         let env = Env::single();
@@ -222,7 +234,7 @@ pub fn run(args: &Args, rep: &mut Report) {
     let other = RawKey::from_master(&other_master_key());
     std::panic::set_hook(Box::new(|_| {}));
     let subs = subjects();
-    rep.set_meta("rule", json!("6 repositories produced by real histories (fresh; after forget+prune with marked packs; after forget and a prune which keeps partly used packs; duplicate blobs via a stale handle; one-blob packs; repo version 1) x every stored file except config x {remove; truncate; flip; append 1/16/32 bytes; replace by each sibling of the same type; same plaintext under another key; index: duplicate / drop a pack entry, drop a blob entry}. quick: one bit per ciphertext byte and all 8 bits of nonces, MACs, pack headers, trailers; boundary truncation lengths. thorough: every bit and every truncation length of files <= 2 KiB. Non-trivial = distinct faults whose verdict is 'detected by check' (the fault is visible) - harmless ones are counted separately"));
+    rep.set_meta("rule", json!("7 repositories produced by real histories (fresh; two snapshots with the same time; after forget+prune with marked packs; after forget and a prune which keeps partly used packs; duplicate blobs via a stale handle; one-blob packs; repo version 1) x every stored file except config x {remove; truncate; flip; append 1/16/32 bytes; replace by each sibling of the same type; same plaintext under another key; index: duplicate / drop a pack entry, drop a blob entry}. quick: one bit per ciphertext byte and all 8 bits of nonces, MACs, pack headers, trailers; boundary truncation lengths. thorough: every bit and every truncation length of files <= 2 KiB. Non-trivial = distinct faults whose verdict is 'detected by check' (the fault is visible) - harmless ones are counted separately"));
     // the unfaulted subjects: check clean and everything restorable
     if args.shard == 0 && args.replay.is_none() {
         for s in &subs {
